@@ -9,7 +9,6 @@ def contract(lv):
         ''' + LCSB + '''
     ensures
         err_post(*vstd::prelude::old(d), *final(d), res),
-        (*final(d)).fobs() == (*vstd::prelude::old(d)).fobs(),
         seg_post(*vstd::prelude::old(d), *final(d), old, old_range, new, new_range, LVL, false, fin::<D>(), res.is_ok()),
 ''')
 for name, lv in (('pub fn diff<Old, New, D>(', 'alg_lvl(None)'), ('pub fn diff_deadline<Old, New, D>(', 'alg_lvl(deadline)')):
@@ -21,7 +20,6 @@ def sl(lv):
         alg == Algorithm::Lcs ==> (old.len() <= u32::MAX || new.len() <= u32::MAX),
     ensures
         err_post(*vstd::prelude::old(d), *final(d), res),
-        (*final(d)).fobs() == (*vstd::prelude::old(d)).fobs(),
         seg_post(*vstd::prelude::old(d), *final(d), old, 0..old.len(), new, 0..new.len(), LVL, false, fin::<D>(), res.is_ok()),
 '''.replace('LVL', lv)
 for name, lv in (('pub fn diff_slices<D, T>(', 'alg_lvl(None)'), ('pub fn diff_slices_deadline<D, T>(', 'alg_lvl(deadline)')):
